@@ -291,6 +291,10 @@ def e2e(T, rng, o, seed, rounds, r0=0):
                 priv, pub = rsa.create_signing_keypair_from_string(der)
                 env0 = {"privkey_der": rsa.der_string_from_signing_key(priv), "pubkey_der": rsa.der_string_from_verifying_key(pub)}
                 contents = rb(rng.choice([0, 1, 40, 200]))
+                if version == MDMF_VERSION:
+                    # several segments, each encrypted under the key of its own salt
+                    publish.DEFAULT_MUTABLE_MAX_SEGMENT_SIZE = rng.choice([24, 60, 128 * 1024])
+                    contents = rb(rng.choice([1, 61, 200, 333]))
                 mnode = g.run(g.nodemaker.create_mutable_file(MutableData(contents), version=version))
                 mcap = mnode.get_uri()
                 f = mcap.split(b":")
@@ -322,6 +326,32 @@ def e2e(T, rng, o, seed, rounds, r0=0):
                             o.cmp("ssk_datakey", "publish(share at rest)", contents, aes_ctr(dk, share_data)[:len(contents)])
                             o.cmp("ssk_writekey", "publish(encrypted signing key at rest)", env0["privkey_der"], aes_ctr(wk, enc_privkey))
                             stats["shares_decrypted"] += 1
+                # bytes at rest (MDMF, k = 1: block i is segment i encrypted under the data key of salt i), and the
+                # read path: an independent reader with only the read-cap must get the plaintext back
+                if version == MDMF_VERSION:
+                    from allmydata.mutable.layout import MDMFSlotReadProxy
+                    from allmydata.storage.mutable import MutableShareFile
+                    if k == 1:
+                        for srv, shares in g.shares(msi).items():
+                            for shnum, path in shares.items():
+                                raw = MutableShareFile(path).readv([(0, 10 ** 7)])[0]
+                                rp = MDMFSlotReadProxy(None, msi, shnum, data=raw, data_is_everything=True)
+                                segsize_, datalen_ = g.run(rp.get_encoding_parameters())[2:4]
+                                nseg = (datalen_ + segsize_ - 1) // segsize_ if segsize_ else 0
+                                plain = b""
+                                for i in range(nseg):
+                                    block, salt = g.run(rp.get_block_and_salt(i))
+                                    plain += aes_ctr(E("ssk_datakey", dict(env0, iv=salt)), block)
+                                o.cmp("ssk_datakey", "publish(MDMF share at rest, %d segments)" % min(nseg, 3), contents, plain[:len(contents)])
+                                o.cmp("ssk_writekey", "publish(MDMF encrypted signing key at rest)", env0["privkey_der"],
+                                      aes_ctr(wk, g.run(rp.get_encprivkey())))
+                                stats["shares_decrypted"] += 1
+                    reader = g.make_nodemaker(secret_holder=sh).create_from_cap(mnode.get_readonly_uri())
+                    o.cmp("ssk_datakey", "retrieve(MDMF, plaintext of every segment)", contents, g.run(reader.download_best_version()))
+                    publish.DEFAULT_MUTABLE_MAX_SEGMENT_SIZE = 128 * 1024
+                if version == SDMF_VERSION:
+                    reader = g.make_nodemaker(secret_holder=sh).create_from_cap(mnode.get_readonly_uri())
+                    o.cmp("ssk_datakey", "retrieve(SDMF plaintext)", contents, g.run(reader.download_best_version()))
                 # a later modification presents the same secrets
                 if version == SDMF_VERSION:
                     del g.calllog[:]
